@@ -474,35 +474,69 @@ static void pushCase(Rng & rng) {
         stat("push:" + err);
     }
 }
-static void coopCase(Rng & rng) {
-    // CooperativeModel constructor: a well-formed graph, transition rows of the candidate kinds, a discount candidate
-    auto g = smallGraph();
-    const auto & S = g.getS();
+static void coopCase(Rng & rng, int force = 0) {   // force: 1 = well-formed arguments with discount 2.0, 2 = with NaN
+    // CooperativeModel constructor: graph (possibly incomplete), transition matrices (count / shape / rows possibly wrong),
+    // reward bases (tags / shapes possibly wrong), discount candidate.  Everything the constructor validates.
+    size_t nf = (size_t)rng.range(1, 3), na = (size_t)rng.range(1, 2);
+    F::State S(nf); for (auto & x : S) x = (size_t)rng.range(2, 3);
+    F::Action A(na); for (auto & x : A) x = (size_t)rng.range(1, 3);
+    F::DDNGraph g(S, A);
+    size_t pushes = (!force && rng.coin(1, 8)) ? nf - 1 : nf;          // sometimes a node is missing
+    for (size_t i = 0; i < pushes; ++i) {
+        F::DDNGraph::ParentSet ps;
+        ps.agents = randTag(rng, na, 0);
+        size_t nj = F::factorSpacePartial(ps.agents, A);
+        for (size_t j = 0; j < nj; ++j) ps.features.push_back(randTag(rng, nf, 0));
+        g.push(std::move(ps));
+    }
+    double d = force == 1 ? 2.0 : force == 2 ? NaN : makeDiscount(rng, true);
+    Line l; l << "C06" << "coop" << d << "|"; l.nats(S); l.nats(A); dumpGraph(l, g);
+    // transitions
+    int tmode = force ? 7 : (int)rng.below(8);      // 0 wrong count, 1 wrong rows, 2 wrong cols, 3 bad row, else fine
+    size_t nT = nf; if (tmode == 0) nT = rng.coin() ? nf + 1 : nf - 1;
+    size_t badI = rng.below(nf);
     F::DDN::TransitionMatrix tm;
-    Line l; l << "C06" << "coop";
-    double d = makeDiscount(rng, false);
-    l << d << (size_t)S.size();
-    int badRow = rng.coin(1, 3) ? (int)rng.below(100) : -1; int c = 0;
-    for (size_t i = 0; i < S.size(); ++i) {
-        Matrix2D m(g.getSize(i), S[i]);
-        l << (size_t)m.rows() << (size_t)m.cols();
-        for (long j = 0; j < m.rows(); ++j, ++c) {
-            V1 row = makeRow(rng, S[i], (badRow >= 0 && c == badRow % 12) ? N_GOOD + (int)rng.below(N_KINDS - N_GOOD) : (int)rng.below(2));
-            for (size_t x = 0; x < S[i]; ++x) { m(j, x) = row[x]; l << row[x]; }
+    l << "|" << nT;
+    for (size_t i = 0; i < nT; ++i) {
+        size_t rows = i < pushes ? g.getSize(i) : (size_t)rng.range(1, 3), cols = i < nf ? S[i] : 2;
+        if (tmode == 1 && i == badI) rows += 1;
+        if (tmode == 2 && i == badI) cols += 1;
+        Matrix2D m(rows, cols);
+        l << rows << cols;
+        size_t badRow = rng.below(rows);
+        for (size_t j = 0; j < rows; ++j) {
+            V1 row = makeRow(rng, cols, (tmode == 3 && i == badI && j == badRow) ? N_GOOD + (int)rng.below(N_KINDS - N_GOOD) : (int)rng.below(3));
+            for (size_t x = 0; x < cols; ++x) { m(j, x) = row[x]; l << row[x]; }
         }
         tm.push_back(m);
     }
+    // reward bases
     F::FactoredMatrix2D rw;
-    { F::BasisMatrix bm; bm.tag = {0}; bm.actionTag = {0}; bm.values = Matrix2D::Zero(2, 2); bm.values(0, 1) = 1.5; rw.bases.push_back(bm); }
+    size_t nB = rng.below(3);
+    int bmode = force ? 7 : (int)rng.below(8);      // 0 action tag bad, 1 state tag bad, 2 wrong cols, 3 wrong rows, else fine
+    size_t badB = nB ? rng.below(nB) : 0;
+    l << "|" << nB;
+    for (size_t b = 0; b < nB; ++b) {
+        F::BasisMatrix bm;
+        bool bad = b == badB;
+        bm.actionTag = randTag(rng, na, (bad && bmode == 0) ? (int)rng.range(1, 5) : 0);
+        bm.tag = randTag(rng, nf, (bad && bmode == 1) ? (int)rng.range(1, 5) : 0);
+        auto safeSpace = [](const F::PartialKeys & k, const F::Factors & sp) { size_t r = 1; for (auto x : k) r *= x < sp.size() ? sp[x] : 2; return r; };
+        size_t cols = safeSpace(bm.actionTag, A) + ((bad && bmode == 2) ? 1 : 0);
+        size_t rows = safeSpace(bm.tag, S) + ((bad && bmode == 3) ? 1 : 0);
+        bm.values = Matrix2D::Zero(rows, cols);
+        putTag(l, bm.tag); putTag(l, bm.actionTag); l << rows << cols;
+        rw.bases.push_back(bm);
+    }
     std::unique_ptr<FM::CooperativeModel> obj;
     std::string err = guarded([&] { obj.reset(new FM::CooperativeModel(g, tm, rw, d)); });
     l << "|" << err;
     if (obj) {
         l << obj->getDiscount();
-        for (size_t i = 0; i < S.size(); ++i) { const auto & m = obj->getTransitionFunction().transitions[i]; for (long j = 0; j < m.rows(); ++j) for (long x = 0; x < m.cols(); ++x) l << (double)m(j, x); }
+        for (size_t i = 0; i < nf; ++i) { const auto & m = obj->getTransitionFunction().transitions[i]; for (long j = 0; j < m.rows(); ++j) for (long x = 0; x < m.cols(); ++x) l << (double)m(j, x); }
     }
     l.emit();
-    stat("coop:" + err);
+    stat("coop:" + err); stat("coop_tmode:" + std::to_string(tmode > 3 ? 4 : tmode)); if (nB) stat("coop_bmode:" + std::to_string(bmode > 3 ? 4 : bmode));
 }
 
 // ------------------------------------------------------------------------------------------ witnesses (lowest indices)
@@ -519,6 +553,7 @@ static void witnessCases(long idx) {
             std::unique_ptr<MDP::SparseModel> ob2; Line l2; l2 << "C06" << "ctor"; kinds<MDP::SparseModel>(l2); l2 << false << "basic" << (size_t)2 << (size_t)1 << d;
             err = guarded([&] { ob2.reset(new MDP::SparseModel(2, 1, d)); }); l2 << "|" << err; if (ob2) dumpState(l2, *ob2); l2.emit();
         }
+        Rng r1(777), r2(778); coopCase(r1, 1); coopCase(r2, 2);   // CooperativeModel constructor: discount 2.0 and NaN
     } else if (idx == 2) {    // AMDP with buckets nobody visits: dense R(s,a) = 0/0
         Rng rng(12345); amdpCase<false>(rng, 1); Rng rng2(12345); amdpCase<true>(rng2, 1);
     } else if (idx == 3) {    // sparse storage of a valid table whose sub-threshold entries add up to more than the tolerance
